@@ -70,6 +70,27 @@ def _setup(env, m=None, conv=None, rename=None, only=None, atoms=False):
     return m, conv, K
 
 
+def _sym_intervals(m, conv, env, K):
+    """the interval part of the symbol facts (field invariants) of every symbol converted so far: the known-bit part is
+    built into the symbol's vector, a bound like `offset <= 0x9f` is not expressible that way"""
+    sf = getattr(env, 'sym_facts', None)
+    if not sf:
+        return K
+    for t in list(conv.memo):
+        if not (isinstance(t, tuple) and t and t[0] == 's' and t[1]):
+            continue
+        av = sf(t)
+        if av is None:
+            continue
+        x = conv.memo[t]
+        w = len(x)
+        if av.lo > 0:
+            K = m.AND(K, m.NOT(x.ult(BV.const(m, w, av.lo))))
+        if av.hi < (1 << w) - 1:
+            K = m.AND(K, x.ule(BV.const(m, w, av.hi)))
+    return K
+
+
 def _fit(x, width):
     return x.trunc(width) if len(x) >= width else None
 
@@ -129,6 +150,7 @@ def equal_under(t1, t2, env, width):
         return None
     if a is None or b is None:
         return None
+    K = _sym_intervals(m, conv, env, K)
     # a proof (True) holds for every value of the uninterpreted atoms / unmodelled results; a failed proof is "unknown"
     return True if m.AND(K, a.diff(b)) == 0 else None
 
@@ -141,6 +163,9 @@ def const_diff_under(t1, t2, env, width):
     except (Unsupported, RecursionError):
         return None
     if a is None or b is None or K == 0:
+        return None
+    K = _sym_intervals(m, conv, env, K)
+    if K == 0:
         return None
     d = a - b
     w = m.witness(K)
